@@ -250,6 +250,14 @@ func (c *boundedPool) pruneIdleConns(idleTime time.Duration) {
 			for {
 				select {
 				case conn := <-conns:
+					if conn == nil {
+						// The pool was closed while it was being pruned: the channel
+						// is closed and drained. Release what was taken out of it.
+						for _, nc := range newConns {
+							nc.c.Close()
+						}
+						return
+					}
 					if conn.t.Add(idleTime).Before(time.Now()) {
 						c.tryFree()
 						conn.c.Close()
@@ -263,6 +271,15 @@ func (c *boundedPool) pruneIdleConns(idleTime time.Duration) {
 		DONE:
 			if len(newConns) > 0 {
 				c.mu.RLock()
+				if c.conns == nil {
+					// The pool was closed in the meantime; a send on the nil channel
+					// would block forever with the read lock held.
+					c.mu.RUnlock()
+					for _, conn := range newConns {
+						conn.c.Close()
+					}
+					return
+				}
 				for _, conn := range newConns {
 					c.conns <- conn
 				}
